@@ -194,6 +194,7 @@ class Expression(Node):
         self.text = text
         self.escapes = escapes
         escapes_kwargs = self.exception_kwargs
+        self.escapes_lineno = escapes_lineno
         if escapes_lineno is not None:
             # a syntax error in the filter list is on the line it is
             # written on, which can be after the line of the "${"
